@@ -98,7 +98,9 @@ def generate(prop, rng, tier):
         cfg['tmp_at_init'] = rng.random() < 0.2
         if rng.random() < 0.5:
             # not a cube, not centred: per-axis extents
-            cfg['lo'] = [rng.choice([-1.0, -2.5, 0.0, -0.5]) for _ in shape]
+            # (sometimes far from the origin: large phases x[0] * xi)
+            cfg['lo'] = [rng.choice([-1.0, -2.5, 0.0, -0.5, 100.0, 1000.0])
+                         for _ in shape]
             cfg['hi'] = [l + rng.choice([2.0, 3.0, 0.75, 5.0])
                          for l in cfg['lo']]
     ops = []
@@ -129,6 +131,10 @@ def generate(prop, rng, tier):
 
 
 LAYOUTS = ['C'] * 5 + ['F', 'strided', 'strided']
+import os as _os
+# 1e4 until wave 9: measured floor ~1e1 (first alarms on the unchanged tree),
+# 3e1 clean; 3e2 leaves a factor 10 (seed y18, a single-precision phase error)
+TOLFAC = float(_os.environ.get('ODLSIM_FFT_TOLFAC', '3e2'))
 
 
 def simplify(prop, plan):
@@ -402,7 +408,7 @@ def _call(plan, cfg, objs, op, xs, ys, eps, ctx, fired, S, real_full):
             '{}: the input element was modified [cfg {}]'.format(what, cfg))
     ya = y.asarray()
     xa = x.asarray()
-    tol = 1e4 * eps * (SP.magnitude(ya) + SP.magnitude(xa) + 1.0) * \
+    tol = TOLFAC * eps * (SP.magnitude(ya) + SP.magnitude(xa) + 1.0) * \
         max(1, xa.size) ** 0.5
     # (1) numpy.fft model (DFT only; the adjoint is judged by replica only)
     if cfg['cls'] == 'DFT' and name != 'Ta':
@@ -419,7 +425,7 @@ def _call(plan, cfg, objs, op, xs, ys, eps, ctx, fired, S, real_full):
     # back the argument (whenever the argument is a transform of something)
     if cfg['cls'] == 'FT' and name != 'Ta':
         T0 = objs['T']
-        ftol = 1e5 * eps * (SP.magnitude(ya) + SP.magnitude(xa) + 1.0) * \
+        ftol = 10 * TOLFAC * eps * (SP.magnitude(ya) + SP.magnitude(xa) + 1.0) * \
             max(1, xa.size)
         if fwd:
             ref = ft_model(T0, xa, cfg['sign'])
